@@ -108,3 +108,8 @@ def box(name, ty):
 def spectype(name, ty):
     SPEC_TYPES[name] = ty
     return ty
+
+REGEXES = {}
+def regex(name, z3re):
+    """named SMT regular expression usable in spec expressions as in_re(s, 'name')"""
+    REGEXES[name] = z3re
